@@ -309,6 +309,64 @@ def _set_diff(a, b):
     return None
 
 
+def _declared(m, cname, member, touched):
+    """(pre, snaps, post) site-id sets that the class declarations imply for ``cname.member`` (own contracts plus, for an
+    override, those of every direct base providing the member; a class that does not define the member takes the first
+    provider in its MRO).  None where the history leaves the plain case (re-exports, shared implementations, members
+    decorated after class creation)."""
+    w = m.world
+    cs = w.cspec.get(cname)
+    if cs is None:
+        return None
+    own = [x for x in cs.get("methods", ()) if x["name"] == member]
+    if member == "__init__":
+        i = cs.get("init")
+        if i is None:
+            return None
+        post = {"%s.__init__/post%d" % (cname, k) for k in range(len(i.get("post", ())))}
+        return ({"%s.__init__/pre%d" % (cname, k) for k in range(len(i.get("pre", ())))}, set(), post)
+    if "%s.%s" % (cname, member) in touched:
+        return None
+    bases = ([cs["base"]] if cs.get("base") else []) + list(cs.get("bases2", ()))
+    if own:
+        o = own[0]
+        if o.get("kind", "method") in ("alias", "shared"):
+            return None
+        unit = "%s.%s" % (cname, member)
+        pre = {"%s/pre%d" % (unit, k) for k in range(len(o.get("pre", ())))}
+        post = {"%s/post%d" % (unit, k) for k in range(len(o.get("post", ())))}
+        snaps = {"%s/snap%d" % (unit, k) for k in range(len(o.get("snaps", ())))} if o.get("post") else set()
+        for b in bases:
+            if _provides(m, b, member):
+                e = _declared(m, b, member, touched)
+                if e is None:
+                    return None
+                pre |= e[0]
+                snaps |= e[1]
+                post |= e[2]
+        return (pre, snaps, post)
+    for k in w.classes[cname].__mro__[1:]:
+        nm = _world_name(m, k)
+        if nm is not None and any(x["name"] == member for x in w.cspec[nm].get("methods", ())):
+            return _declared(m, nm, member, touched)
+    return None
+
+
+def _world_name(m, cls):
+    for nm, c in m.world.classes.items():
+        if c is cls:
+            return nm
+    return None
+
+
+def _provides(m, cname, member):
+    for k in m.world.classes[cname].__mro__:
+        nm = _world_name(m, k)
+        if nm is not None and any(x["name"] == member for x in m.world.cspec[nm].get("methods", ())):
+            return True
+    return False
+
+
 def _foreign_effect(m, old, vv):
     """Probes in which a contract of a class that is neither ``old`` nor one of its ancestors decides old's verdict."""
     w = m.world
@@ -331,7 +389,9 @@ def _foreign_effect(m, old, vv):
 def _manual_mismatch(manual):
     bad = []
     for unit, sites, mv, real in manual:
-        if mv[0] == "ret":
+        if mv[0] == "fault":
+            ok = real[0] == "fault" and real[1:] == mv[1:]
+        elif mv[0] == "ret":
             ok = real[0] == "ret"
         else:
             ok = real[0] == "exc" and real[2] == mv[1]
@@ -352,10 +412,13 @@ def execute(scn, want):
     with defmachine.Machine() as m:
         defined = []  # names in definition order
         ok_classes = 0
+        touched = set()  # members changed after their class was created (late decoration, helper appends)
         for si, step in enumerate(scn.get("steps") or []):
             stats["steps"] += 1
             name, exc, announced = m.define(step)
             op = step["op"]
+            if op in ("late", "append"):
+                touched.add(step["unit"])
             # ---------------- expectations about the step itself
             if op == "bad":
                 probe("failing_definition_" + step.get("kind", "?"))
@@ -490,6 +553,30 @@ def execute(scn, want):
                             }
                         )
                 shapes.add(common.h64((want, op, rel, bool(diffs), old in changed)))
+            # ---------------- C18.R4: the lists of a freshly created class are what its declaration implies
+            if want == "C18" and name is not None and exc is None and op == "class":
+                fp_new = m.fingerprint(name)
+                for ms in step["spec"].get("methods", ()):
+                    kind_ = ms.get("kind", "method")
+                    if kind_ in ("alias", "shared"):
+                        continue
+                    exp = _declared(m, name, ms["name"], touched)
+                    if exp is None:
+                        continue
+                    got = fp_new.get(ms["name"] + (".get" if kind_ == "prop" else ""))
+                    gp = _flat((got or {}).get("pre") or [])
+                    gs = _flat((got or {}).get("snaps") or [])
+                    gq = _flat((got or {}).get("post") or [])
+                    for role, e_, g_ in (("pre", exp[0], gp), ("snaps", exp[1], gs), ("post", exp[2], gq)):
+                        if e_ != g_:
+                            violations.append(
+                                {
+                                    "rule": "C18.R4",
+                                    "classifier": "lists-differ-from-declaration:%s:%s:%s" % (kind_, role, "missing" if e_ - g_ else "extra"),
+                                    "detail": {"step": si, "class": name, "member": ms["name"], "role": role, "declared": sorted(e_), "introspected": sorted(g_)},
+                                }
+                            )
+                            break
             # ---------------- record the new definition
             if name is not None and exc is None and op in ("class", "func"):
                 manual = [] if want == "C18" else None
